@@ -700,9 +700,41 @@ def _run_r9(ctx):
     ctx.sites(R9, n_trial, 3, "trial-phase rows of DeflateDecoder.decompress")
 
 
+def _run_r11(ctx):
+    """C12-R11: a chunked body has ONE reader position."""
+    m = ctx.model
+    R11 = ctx.rule("C12-R11", "the position inside a chunked body has a single owner: urllib3's own chunk reader (which reads the socket file below http.client's chunk layer and keeps self.chunk_left) "
+                   "and the readers that delegate to http.client's chunked read()/read1() (which keeps its own chunk_left) are never both usable on one response, unless one synchronises the other's position", "E8 ownership / sibling agreement over HTTPResponse")
+    cls = m.cls(HR)
+    below, through, sync = [], [], []
+    for name, f in sorted(cls.methods.items()):
+        for n in astq.walk_fn(f.node):
+            if isinstance(n, ast.Attribute):
+                t = astq.text(n)
+                if isinstance(n.ctx, ast.Load) and (t.startswith("self._fp.fp.read") or t == "self._fp._safe_read"):
+                    below.append((f, n))
+                elif isinstance(n.ctx, ast.Load) and t in ("self._fp.read", "self._fp.read1", "self._fp.readinto"):
+                    through.append((f, n))
+                elif isinstance(n.ctx, (ast.Store, ast.Del)) and t in ("self._fp.chunk_left", "self._fp.chunked", "self._fp.length"):
+                    sync.append((f, n))
+    ctx.sites(R11, len(below), 1, "reads below http.client's chunk layer (self._fp.fp.readline / self._fp._safe_read)")
+    ctx.sites(R11, len(through), 1, "reads through http.client's own (chunk-aware) read / read1")
+    # a guard that refuses to switch readers: a public reader that raises when the other reader has started (a state flag tested first)
+    entry = {"read": m.method(HR, "read"), "read1": m.method(HR, "read1"), "read_chunked": m.method(HR, "read_chunked")}
+    def tests_chunk_state(f):
+        return any(isinstance(n, ast.Attribute) and astq.text(n) in ("self.chunk_left", "self._fp.chunk_left") and isinstance(n.ctx, ast.Load) for n in astq.walk_fn(f.node))
+    guarded = tests_chunk_state(entry["read"]) and tests_chunk_state(entry["read1"])
+    ok = not (below and through) or bool(sync) or guarded
+    ctx.ob(R11, HR, "a chunked body has one reader position: urllib3's chunk reader and http.client's are not both usable on one response, or one synchronises the other", ok,
+           "" if ok else f"{len(below)} reads below the stdlib's chunk layer in {sorted({f.name for f, _ in below})}, {len(through)} through it in {sorted({f.name for f, _ in through})}, synchronising stores={len(sync)}, "
+           f"read()/read1() test the chunk position={guarded}: read_chunked()/stream() parse chunk framing themselves (self.chunk_left) while read()/read(n)/read1() leave it to http.client (its own chunk_left): after one family consumed part of a chunk "
+           "the other resumes in the middle of the framing - `next(r.stream(4)); r.read()` and `r.read(4); list(r.stream(7))` raise ProtocolError on an intact chunked body", node=cls.node)
+
+
 _run_base12 = run
 
 
 def run(ctx):  # noqa: F811
     _run_base12(ctx)
     _run_r9(ctx)
+    _run_r11(ctx)
